@@ -157,9 +157,17 @@ class RaggedIndexedArray(RaggedArray):
         c_indices = []
         for d, size in enumerate(self.source().shape):
             if d == d1:
+                # One subarray for every instance of the uncompressed
+                # array, including any instance that has no samples
+                # (i.e. whose number is absent from the index
+                # variable).
                 index = np.array(self.get_index())
-                unique = np.unique(index).tolist()
-                c_indices.append([np.where(index == i)[0] for i in unique])
+                c_indices.append(
+                    [
+                        np.where(index == i)[0]
+                        for i in range(self.shape[u_dims[0]])
+                    ]
+                )
             else:
                 if d < d1:
                     c = shapes[d]
